@@ -23,11 +23,8 @@ func (lbm LBusmonInd) Pack(buffer []byte) {
 
 // Unpack initializes the structure by parsing the given data.
 func (lbm *LBusmonInd) Unpack(data []byte) (n uint, err error) {
-	target := []byte(*lbm)
-
-	if len(target) < len(data) {
-		target = make([]byte, len(data))
-	}
+	// The result is exactly the given data, whatever the receiver held before.
+	target := make([]byte, len(data))
 
 	n = uint(copy(target, data))
 	*lbm = LBusmonInd(target)
